@@ -52,6 +52,8 @@ class Spec:
         self.sig_names = None               # configurations named in signatures / cached records (None = all)
         self.quick_grid, self.quick_corpus = 700, 250      # size of the seed-selected slice of the quick tier
         self.extra_items = []               # (name, ast) programs of the check's own, always included
+        self.raw_items = []                 # (name, JavaScript text) programs outside the modelled fragment: compared between
+                                            # configurations only (no referee), see run_raw
 
 
 def load_corpus(spec):
@@ -272,6 +274,7 @@ def run(spec, tier, replay=None, extra=None):
                        "configuration) triples run in boa; a program fails when some configuration's observation differs from the "
                        "reference configuration's (%s); non-trivial = program that prints or takes >= 40 machine steps; "
                        "OutOfModel programs are skipped" % spec.what)
+    raw_n = run_raw(spec, ck, runner)
     if extra:
         extra(ck, runner, items, tier)
     if tot["nontrivial"] < spec.min_nontrivial[tier]:
@@ -285,6 +288,37 @@ def run(spec, tier, replay=None, extra=None):
                        "domain are skipped", "a disagreement with the model that is the same under every configuration is C01's "
                        "business and is only counted here"]
     return ck.finish()
+
+
+def run_raw(spec, ck, runner):
+    """Programs outside MiniJS (`with`, direct eval ...): the model cannot referee them, but the property is an equivalence
+    between configurations, so every configuration must still print what the reference configuration prints."""
+    if not spec.raw_items:
+        return 0
+    scen = []
+    for i, (name, src) in enumerate(spec.raw_items):
+        for cn, cfg in spec.configs:
+            c = dict(SAFETY)
+            c.update(cfg)
+            scen.append({"id": "%d/%s" % (i, cn), "cfg": c, "timeout_ms": 20000, "steps": [{"kind": "eval", "src": src}]})
+    res = c01.run_hjs(runner.binary, scen)
+    bad = 0
+    for i, (name, src) in enumerate(spec.raw_items):
+        obs = {}
+        for cn, _ in spec.configs:
+            r = res["%d/%s" % (i, cn)]
+            obs[cn] = (r["steps"][0]["out"], r["steps"][0]["c"]) if "steps" in r else (None, "panic:" + str(r.get("panic") or r.get("abort"))[:160])
+        ref = obs[spec.reference]
+        diff = {cn: o for cn, o in obs.items() if o != ref}
+        if diff:
+            bad += 1
+            ck.failure(json.dumps({"raw": name, "configs": _named(spec, diff)}, sort_keys=True),
+                       {"program": name, "src": src, "reference": [ref[0], ref[1]], "configs": {cn: [o[0], o[1]] for cn, o in sorted(diff.items())}})
+    ck.cov["raw_programs"] = len(spec.raw_items)
+    ck.cov["raw_programs_differing"] = bad
+    ck.cov["evaluations"] = ck.cov.get("evaluations", 0) + len(scen)
+    ck.cov["traces_validated_against_impl"] = ck.cov.get("traces_validated_against_impl", 0) + len(scen)
+    return len(scen)
 
 
 # ------------------------------------------------------------------------------------------------ build-time tools
